@@ -190,12 +190,12 @@ Proof.
 Qed.
 
 (* the ordinary part of the request writes at most one ordinary-body event *)
-Lemma main_log st :
-  exists evs, st_log (snd (main_handler SP W ri st)) = st_log st ++ evs
+Lemma main_log second st :
+  exists evs, st_log (snd (main_handler SP W ri second st)) = st_log st ++ evs
               /\ (evs = [] \/ exists t s, evs = [EBody t ctx_resource s]).
 Proof.
   unfold main_handler. destruct (ri_root_raise ri); [exists []; simpl; rewrite app_nil_r; auto|].
-  destruct (call_view (w_reg W) view_classifier (ri_req ri)) as [t| |];
+  destruct (call_view (w_reg W) view_classifier (req_of ri second)) as [t| |];
     try solve [exists []; simpl; rewrite app_nil_r; auto].
   unfold run_body. destruct (true && b_perm (body_of (w_bodies W) t) && ri_deny ri).
   - exists []. simpl. rewrite app_nil_r. auto.
@@ -204,21 +204,31 @@ Proof.
       simpl; eexists; split; try reflexivity; right; eauto.
 Qed.
 
+Lemma normal_evs_ok evs0 :
+  (evs0 = [] \/ exists t s, evs0 = [EBody t ctx_resource s]) ->
+  no_probe evs0 /\ forall rr sec l, judge_under regs W ri rr sec [] (evs0 ++ l) = judge_under regs W ri rr sec [] l.
+Proof.
+  intros [->|[t [s ->]]].
+  - split; [intros o s H; destruct H|reflexivity].
+  - split; [intros o s' [H|[]]; discriminate H|]. intros rr sec l. simpl. reflexivity.
+Qed.
+
 Lemma under_judge a0 :
   let r := under_tween SP W ri (mkSt a0 []) in
   no_probe (st_log (snd r)) /\ judge_under regs W ri (rr_of (ri_under ri)) (sec_of (ri_under ri)) [] (st_log (snd r)) = true.
 Proof.
   intros r. subst r. unfold under_tween.
-  destruct (main_log (mkSt a0 [])) as [evs0 [Hl0 Hs0]]. simpl in Hl0.
-  assert (Hn0 : no_probe evs0 /\ forall rr sec l, judge_under regs W ri rr sec [] (evs0 ++ l) = judge_under regs W ri rr sec [] l).
-  { destruct Hs0 as [->|[t [s ->]]].
-    - split; [intros o s H; destruct H|reflexivity].
-    - split; [intros o s' [H|[]]; discriminate H|]. intros rr sec l. simpl. reflexivity. }
-  destruct Hn0 as [Hn0 Hj0].
-  destruct (ri_under ri) as [|e|rr sec thn] eqn:Hu.
+  destruct (main_log false (mkSt a0 [])) as [evs0 [Hl0 Hs0]]. simpl in Hl0.
+  destruct (normal_evs_ok evs0 Hs0) as [Hn0 Hj0].
+  destruct (ri_under ri) as [|e| |rr sec via thn] eqn:Hu.
   - rewrite Hl0. split; [exact Hn0|]. rewrite <- (app_nil_r evs0). rewrite Hj0. reflexivity.
   - simpl. split; [intros o s H; destruct H|reflexivity].
-  - destruct (main_handler SP W ri (mkSt a0 [])) as [o st1] eqn:Hm. simpl in Hl0.
+  - destruct (main_handler SP W ri false (mkSt a0 [])) as [o st1] eqn:Hm. simpl in Hl0.
+    destruct (main_log true st1) as [evs1 [Hl1 Hs1]]. destruct (normal_evs_ok evs1 Hs1) as [Hn1 Hj1].
+    rewrite Hl1, Hl0. split.
+    + intros o' s H. apply in_app_or in H. destruct H as [H|H]; [exact (Hn0 o' s H)|exact (Hn1 o' s H)].
+    + rewrite Hj0. rewrite <- (app_nil_r evs1). rewrite Hj1. reflexivity.
+  - destruct (main_handler SP W ri false (mkSt a0 [])) as [o st1] eqn:Hm. simpl in Hl0.
     assert (Hbase : no_probe (st_log st1) /\ judge_under regs W ri rr sec [] (st_log st1) = true).
     { rewrite Hl0. split; [exact Hn0|]. rewrite <- (app_nil_r evs0). rewrite Hj0. reflexivity. }
     destruct o as [r|e].
@@ -396,7 +406,7 @@ Definition ex_W : world :=
   mkWorld (register_all accept_order_default ex_regs14) (bodies_of spec_params ex_nm ex_decls) ex_excs.
 Definition ex_ri : rinfo :=
   mkRI (mkReq rm_get [] [] false None false [47%N] [([], [])] true [] [] [] [1; 0]%N [12; 0]%N [])
-       [1; 0]%N [1; 0]%N false None UPass None.
+       None [1; 0]%N [1; 0]%N false None UPass None.
 
 Example judge_accepts_model_nonvacuous :
   Forall reg_wf ex_regs14 /\ NoDup (map key ex_regs14) /\ no_accept ex_regs14 /\ order_respects ex_regs14
@@ -448,7 +458,7 @@ Definition rf_W : world :=
   mkWorld (register_all accept_order_default rf_regs) (bodies_of spec_params ex_nm rf_decls) ex_excs.
 Definition rf_ri : rinfo :=
   mkRI (mkReq rm_get [] [] false None false [47%N] [([], [])] true [] [] [] [1; 0]%N [12; 0]%N [])
-       [1; 0]%N [1; 0]%N false None (UCatch false false None) None.
+       None [1; 0]%N [1; 0]%N false None (UCatch false false false None) None.
 
 Theorem judge_accepts_model_refuted :
   sec_of (ri_under rf_ri) = false
